@@ -295,6 +295,14 @@ def reader_rules(ctx):
     ok_c = all(st.get(f"(:, :, {d})") == f"self.box_centers[level][{d}][level_indices[:, :, {d}]]" for d in range(3))
     ctx.check(ok_c, f"{P}.DIM-COH", bb.site, "cell centres of direction d are looked up with the indices of direction d",
               f"centre lookups are { {k: v for k, v in st.items() if 'box_centers' in v} }", key="centres")
+    # the physical bounds carry the domain origin: they are derived from the geo_lo-based cell centres (or from
+    # geo_lo itself), never from the cell indices and the cell size alone
+    reads = {norm(x) for x in ast.walk(bb.node) if isinstance(x, ast.Attribute)}
+    ctx.check(bool(reads & {"self.box_centers", "self.geo_lo"}), f"{P}.DIM-COH", bb.site,
+              "box bounds are derived from the origin-based cell centres",
+              f"compute_boxes_bounds reads {sorted(reads)} and neither self.box_centers nor self.geo_lo: bounds of the "
+              f"form index * dx drop the domain origin, so the Header's box coordinates disagree with its geo_lo/geo_hi "
+              f"whenever the origin is not 0", key="origin", where=loc(bb, bb.node), semantic=True)
     lo_ok = st.get("(:, 0, :)Sub") in ("self.dx[level] / 2", "0.5 * self.dx[level]", "self.dx[level] * 0.5")
     hi_ok = st.get("(:, 1, :)Add") in ("self.dx[level] / 2", "0.5 * self.dx[level]", "self.dx[level] * 0.5")
     per_dim = all(st.get(f"(:, 0, {d})Sub") == f"self.dx[level][{d}] / 2" and
